@@ -486,7 +486,15 @@ def run(case):
   stubs.CURRENT.thread_id = sc.thread_id
   envs = [prog.Env(t, fns, sched=sc) for t in range(n)]
   chks = [Checker(e) for e in envs]
-  sc.run([thread_body(envs[t], case['threads'][t], chks[t], t) for t in range(n)])
+  try:
+    sc.run([thread_body(envs[t], case['threads'][t], chks[t], t) for t in range(n)])
+  except sched_lib.SimDeadlock as e:
+    res['steps'] = sc.steps
+    res['turns'] = sc.turns
+    res['sched_hash'] = sc.sched_hash()
+    res['faults'] = {'preempt': sc.switches}
+    res['violations'].append(V('deadlock', f'threads on disjoint configurations deadlocked: {e}'))
+    return res
   res['steps'] = sc.steps
   res['sched_hash'] = res['digest'] = sc.sched_hash()
   res['turns'] = sc.turns
